@@ -566,6 +566,17 @@ def vc_ne_inner(prog, state_kind='edge', family='base'):
                       if not writes else zand(len(writes) == 1, writes[0].value is r, eq(writes[0].key, key))))
             g.append(('file:merged-only-into-the-entry-stored-under-the-same-key', b2z(all(u.cand is r and any(u.target is s_ for s_ in st.get('stored', [])) for u in upd))))
             g.append(('file:filed-or-merged-not-both', b2z(len(writes) + len(upd) <= 1)))
+            # C19: a stopped entry under this key exists only under debug; a live candidate that takes its place must sit where a
+            # newly inserted entry would sit (the iteration order of the layer decides between exactly equal alternatives)
+            stored = st.get('stored', [])
+            if stored:
+                s0 = stored[-1]
+                dels = [e for e in ctx.events if e.kind == 'dictdel' and e.d is st['layer']]
+                idx_of = {id(e): i for i, e in enumerate(ctx.events)}
+                refiled = len(dels) == 1 and len(writes) == 1 and writes[0].value is r and idx_of[id(dels[0])] < idx_of[id(writes[0])]
+                g.append(('debug:placeholder-turned-live-is-ordered-like-a-new-entry',
+                          z3.Implies(z3.And(b2z(s0.f['stop']), z3.Not(b2z(calls[0]['stop0'])), z3.Not(b2z(r.f['stop'])),
+                                            b2z(len(writes) + len(upd) >= 1)), b2z(refiled))))
             g.append(('debug:dropped-candidate-marked-stopped-or-unchanged', z3.BoolVal(True)))
             reg = [e for e in ctx.events if e.kind == 'dictset' and e.d is st['lattice_best'] and e.value is r]
             g.append(('debug:stopped-candidate-is-never-registered-as-best-known-state',
